@@ -139,8 +139,29 @@ Proof.
   split; reflexivity.
 Qed.
 
+(* after the dispatch of a truncated frame only the read loop's control state (and errs) change *)
+Lemma eof_after_dispatch_cases : forall cfg f rep s,
+  eof_after_dispatch cfg f rep s = reader_dies s \/ eof_after_dispatch cfg f rep s = set_reader RWaitDone s.
+Proof.
+  intros. unfold eof_after_dispatch.
+  destruct (handler_for cfg (f_typ f)), rep, (saw_close s); auto.
+Qed.
+
+Ltac eof_cases :=
+  match goal with
+  | |- context [eof_after_dispatch ?c ?f ?r ?x] =>
+      let E := fresh "Eeof" in destruct (eof_after_dispatch_cases c f r x) as [E|E]; rewrite E
+  end.
+
+Lemma eof_after_dispatch_callers : forall cfg f rep s,
+  callers (eof_after_dispatch cfg f rep s) = callers s /\ assigned (eof_after_dispatch cfg f rep s) = assigned s.
+Proof.
+  intros. unfold eof_after_dispatch, reader_dies.
+  destruct (handler_for cfg (f_typ f)), rep, (saw_close s); split; reflexivity.
+Qed.
+
 Lemma note_close_resp_callers : forall f s, callers (note_close_resp f s) = callers s /\ assigned (note_close_resp f s) = assigned s.
-Proof. intros. unfold note_close_resp. destruct (f_typ f =? _); split; reflexivity. Qed.
+Proof. intros. unfold note_close_resp. destruct (_ && _); split; reflexivity. Qed.
 
 (* every step: the caller table evolves, and assigned grows by at most one entry at the end *)
 Lemma step_evolve : forall Q cfg s e, ev_new_ok Q e ->
@@ -210,10 +231,11 @@ Proof.
       rewrite Htw in H1, H2. cbn [fst] in H1, H2.
       destruct (note_close_resp_callers f (set_peer_sent (peer_sent s ++ [f]) s)) as (E1 & E2).
       rewrite E1 in H1. rewrite E2 in H2. st_simpl.
-      destruct (rep && (f_len f <=? max_buffered)); unfold reader_dies; st_simpl_goal.
-      * split; [assumption|now left].
+      destruct (rep && (f_len f <=? max_buffered)).
+      * unfold reader_dies; st_simpl_goal. split; [assumption|now left].
       * destruct (run_handler_callers cfg (length (peer_sent s)) f HBAll rep s2) as (E3 & E4).
-        rewrite E3, E4. split; [assumption|now left].
+        destruct (eof_after_dispatch_callers cfg f rep (run_handler cfg (length (peer_sent s)) f HBAll rep s2)) as (E5 & E6).
+        rewrite E5, E6, E3, E4. split; [assumption|now left].
   - unfold step_close. destruct (closed s); split; try apply ce_refl; now left.
   - unfold step_conn_start. destruct (phase s); split; try apply ce_refl; now left.
   - (* ConnFirst *) unfold step_conn_first. destruct (phase s); try (split; [apply ce_refl|now left]).
